@@ -11,7 +11,9 @@ package huffman
 //@   ensures forall i :: 0 <= i && i < len(codeLens) ==> codeLens[i] <= uint32(limitedLen) && ((old(histogram[i]) == 0) == (codeLens[i] == 0))
 
 //@ func GenerateCode2
-//@   trusted "not yet verified: canonical code assignment (RFC 1951 3.2.2), bit-reversed, packed as code | length<<24"
-//@   requires forall i :: 0 <= i && i < len(lens) ==> lens[i] <= 15
+//@   requires len(lens) <= 1024 && (forall i :: 0 <= i && i < len(lens) ==> lens[i] <= 15)
 //@   modifies lens[*]
-//@   ensures forall i :: 0 <= i && i < len(lens) ==> lens[i]>>24 == old(lens[i]) && (lens[i] & 16777215) >> old(lens[i]) == 0 && (old(lens[i]) == 0 ==> lens[i] == 0)
+//@   ensures[C01 C10 code-shape] forall i :: 0 <= i && i < len(lens) ==> lens[i]>>24 == old(lens[i]) && (lens[i] & 16777215) >> old(lens[i]) == 0 && (old(lens[i]) == 0 ==> lens[i] == 0)
+//@   loop 1 invariant 0 <= maxBits && maxBits <= 15
+//@   loop 2 invariant 1 <= bits && bits <= maxBits + 1 && maxBits <= 15
+//@   loop 3 invariant (forall k :: 0 <= k && k <= rangeindex && k < len(lens) ==> lens[k]>>24 == old(lens[k]) && (lens[k] & 16777215) >> old(lens[k]) == 0 && (old(lens[k]) == 0 ==> lens[k] == 0)) && (forall m :: rangeindex < m && m < len(lens) ==> lens[m] == old(lens[m]))
